@@ -350,6 +350,6 @@ Qed.
 (* the SQL-level defect: a two-argument aggregate over an arithmetic first argument sees no input *)
 Theorem two_arg_expr_arg_lost_refuted :
   exists cells,
-    batch (APercentile (1 # 2)) MExpr (sql_cells ShMul2 (APercentile (1 # 2)) cells) = Some (RNum 0) /\
+    batch (APercentile (1 # 2)) MExpr (sql_cells_asis ShMul2 (APercentile (1 # 2)) cells) = Some (RNum 0) /\
     spec_batch (APercentile (1 # 2)) MExpr (map (eval_arg ShMul2) cells) = Some (RNum 4).
 Proof. exists [Cell (VInt 1); Cell (VInt 4); Cell (VInt 2)]. split; vm_compute; reflexivity. Qed.
